@@ -844,6 +844,14 @@ func (g *c08Gen) workflow(o c08WFOpts) (string, *c08WF) {
 				}
 			}
 		}
+		if len(needsItems) > 0 && g.defect("duplicate-needs-entry") {
+			// the same job listed twice (one spelling in the base): position of the repeat is random
+			d := r.Intn(len(needsItems))
+			id := j.needs[d].id
+			needsItems[d] = c08N("needs-entry(dup-first)", id)
+			at := d + 1 + r.Intn(len(needsItems)-d)
+			needsItems = append(needsItems[:at], append([]string{c08N("needs-entry(dup-second)", id)}, needsItems[at:]...)...)
+		}
 		if g.defect("undefined-needs-entry") {
 			needsItems = append(needsItems, c08N("needs-entry", g.name(true)))
 		}
@@ -886,9 +894,25 @@ func (g *c08Gen) workflow(o c08WFOpts) (string, *c08WF) {
 		if r.Intn(2) == 0 {
 			g.matrix(w, wf, j)
 		}
-		if j.hasMatrix && len(j.matrixKeys) > 0 && r.Intn(3) == 0 {
+		if j.hasMatrix && len(j.matrixKeys) > 0 && (j.matrixLabelKey != "" && r.Intn(3) > 0 || r.Intn(3) == 0) {
 			if k := j.matrixLabelKey; k != "" {
-				w.l(4, "runs-on: ${{ "+g.ctx("matrix")+g.prop("matrix-use", k)+" }}")
+				// the runner-label rule reads this expression itself (text of the scalar) to find the
+				// labels in the matrix
+				e := "${{ " + c08N("context-name(runs-on)", "matrix") + g.prop("matrix-use(runs-on)", k) + " }}"
+				other := "self-hosted"
+				if g.defect("matrix-label-conflict") {
+					other = "windows-latest"
+				}
+				switch r.Intn(4) {
+				case 0:
+					w.l(4, "runs-on: ["+other+", '"+strings.ReplaceAll(e, "'", "''")+"']")
+				case 1:
+					w.l(4, "runs-on:")
+					w.l(6, "- "+other)
+					w.l(6, "- "+e)
+				default:
+					w.l(4, "runs-on: "+e)
+				}
 			} else {
 				w.l(4, "runs-on: ubuntu-latest")
 			}
@@ -947,8 +971,15 @@ func (g *c08Gen) matrix(w *c08W, wf *c08WF, j *c08Job) {
 			v := r.Pick([]string{"[a, B]", "[1, 2, 3]", "[ubuntu-latest, macos-latest]", "['x']", "[true, false]"})
 			if v == "[ubuntu-latest, macos-latest]" {
 				j.matrixLabelKey = k
+				if g.defect("unknown-matrix-label") {
+					v = "[ubuntu-latest, No-Such-Label, macos-latest]"
+				}
 			}
-			w.l(8, c08N("matrix-row-key", k)+": "+v)
+			site := "matrix-row-key"
+			if k == j.matrixLabelKey {
+				site = "matrix-row-key(label)"
+			}
+			w.l(8, c08N(site, k)+": "+v)
 		}
 	}
 	if nrows == 0 || r.Intn(3) == 0 {
@@ -959,6 +990,12 @@ func (g *c08Gen) matrix(w *c08W, wf *c08WF, j *c08Job) {
 				k := r.Pick(rowKeys)
 				if len(j.matrixNested[k]) == 0 && k != j.matrixLabelKey {
 					items = append(items, c08N("matrix-include-key", k)+": a")
+				} else if k == j.matrixLabelKey {
+					v := "ubuntu-22.04"
+					if g.defect("unknown-include-label") {
+						v = "bogus-Label"
+					}
+					items = append(items, c08N("matrix-include-key(label)", k)+": "+v)
 				}
 			}
 			for m := r.Range(1, 2); m > 0; m-- {
